@@ -146,3 +146,63 @@ pub fn run_builder(threads: usize) -> XResult {
     let c = BuilderModel.checker().threads(threads).spawn_bfs().join();
     XResult { unique_states: c.unique_state_count(), discoveries: c.discoveries().len(), max_depth: c.max_depth() }
 }
+
+// ---- lifecycle graph (C04): inputs + reset, keyed on the concrete state only
+
+#[derive(Clone)]
+pub struct LSt {
+    pub obj: Obj,
+    /// reset() led to a state whose key differs from a fresh instance's
+    pub reset_not_fresh: bool,
+}
+impl PartialEq for LSt {
+    fn eq(&self, o: &LSt) -> bool {
+        self.reset_not_fresh == o.reset_not_fresh && self.obj.key() == o.obj.key()
+    }
+}
+impl Hash for LSt {
+    fn hash<H: Hasher>(&self, h: &mut H) {
+        self.obj.key().hash(h);
+    }
+}
+impl std::fmt::Debug for LSt {
+    fn fmt(&self, f: &mut std::fmt::Formatter) -> std::fmt::Result {
+        write!(f, "LSt({})", self.obj.0.lock().unwrap().dbg())
+    }
+}
+
+pub struct LifeModel {
+    pub cfg: Cfg,
+    pub alphabet: Vec<Op>,
+    pub fresh_key: u128,
+}
+
+impl Model for LifeModel {
+    type State = LSt;
+    type Action = u8;
+    fn init_states(&self) -> Vec<LSt> {
+        vec![LSt { obj: Obj(Mutex::new(make(&self.cfg))), reset_not_fresh: false }]
+    }
+    fn actions(&self, _s: &LSt, actions: &mut Vec<u8>) {
+        for a in 0..self.alphabet.len() {
+            actions.push(a as u8);
+        }
+    }
+    fn next_state(&self, s: &LSt, a: u8) -> Option<LSt> {
+        let obj = s.obj.clone();
+        let op = self.alphabet[a as usize];
+        obj.0.lock().unwrap().apply(&op);
+        let bad = s.reset_not_fresh || (matches!(op, Op::Reset) && obj.key() != self.fresh_key);
+        Some(LSt { obj, reset_not_fresh: bad })
+    }
+    fn properties(&self) -> Vec<Property<Self>> {
+        vec![Property::<Self>::always("reset() reaches the fresh state", |_, s| !s.reset_not_fresh)]
+    }
+}
+
+pub fn run_lifecycle(cfg: &Cfg, alphabet: &[Op], threads: usize) -> XResult {
+    let fresh_key = state_key(make(cfg).as_ref(), &[]);
+    let m = LifeModel { cfg: *cfg, alphabet: alphabet.to_vec(), fresh_key };
+    let c = m.checker().threads(threads).spawn_bfs().join();
+    XResult { unique_states: c.unique_state_count(), discoveries: c.discoveries().len(), max_depth: c.max_depth() }
+}
